@@ -32,6 +32,7 @@ import traceback
 
 VERIF = os.path.dirname(os.path.dirname(os.path.abspath(__file__)))
 REPO = os.environ.get('YMC_REPO', '/repo')
+OUT = os.environ.get('YMC_OUT', VERIF)     # development runs against a patched copy write elsewhere
 WATCHDOG_S = 10.0
 NPROC = int(os.environ.get('YMC_NPROC', '16'))
 
@@ -185,7 +186,7 @@ def _run_check(check, tier, seed, out, t0):
     from . import impl
     impl.assert_repo()
     import glob
-    for old in glob.glob(os.path.join(VERIF, 'replays', check.id + '-*.json')):
+    for old in glob.glob(os.path.join(OUT, 'replays', check.id + '-*.json')):
         os.unlink(old)
     base = getattr(check, 'chunk', 200)
     csize = base + seed % 7
@@ -291,7 +292,7 @@ def _run_check(check, tier, seed, out, t0):
         out.write('KNOWN-FINDING: property=%s %s\n' % (check.id, open_sigs[sig].get('what', sig)))
     replay_paths = []
     if reported:
-        os.makedirs(os.path.join(VERIF, 'replays'), exist_ok=True)
+        os.makedirs(os.path.join(OUT, 'replays'), exist_ok=True)
         for sig, lst in sorted(reported.items()):
             lst.sort(key=lambda cv: len(json.dumps(cv[0])))
             case, v = lst[0]
@@ -299,7 +300,7 @@ def _run_check(check, tier, seed, out, t0):
                    'case': case, 'detail': v.get('detail'), 'tier': tier,
                    'cases_with_this_signature': len(lst)}
             name = '%s-%016x.json' % (check.id, h64([sig, case]))
-            path = os.path.join(VERIF, 'replays', name)
+            path = os.path.join(OUT, 'replays', name)
             with open(path, 'w') as f:
                 json.dump(rec, f, indent=1, ensure_ascii=False, default=repr)
             replay_paths.append(path)
@@ -342,8 +343,8 @@ def _run_check(check, tier, seed, out, t0):
     ev = {'property_id': check.id, 'tier': tier, 'seed': seed, 'level': check.level,
           'coverage': coverage, 'assumptions': list(check.assumptions),
           'wall_s': round(wall, 2), 'violations': n_unknown}
-    os.makedirs(os.path.join(VERIF, 'evidence'), exist_ok=True)
-    with open(os.path.join(VERIF, 'evidence', check.id + '.json'), 'w') as f:
+    os.makedirs(os.path.join(OUT, 'evidence'), exist_ok=True)
+    with open(os.path.join(OUT, 'evidence', check.id + '.json'), 'w') as f:
         json.dump(ev, f, indent=1, ensure_ascii=False, default=repr)
     out.write('%s tier=%s seed=%d states=%d transitions=%d outcomes=%d nontrivial=%d '
               'violations=%d known=%d wall=%.1fs%s\n' % (
